@@ -24,8 +24,8 @@ func (c10) Info() core.Info {
 		Level: "exploration",
 		Rule: "seeded swarm generation of session histories: a base history H of succeeding inputs (generator self-checked on a scratch session) " +
 			"and H' = H plus side-effect-free failing inputs (language error in nested calls/loops, Go runtime panic inside a function, depth overflow, " +
-			"deadline at a PRNG-chosen virtual tick, allocation refusal through the memory seam, writer error) inserted at PRNG-chosen positions and multiplicities; " +
-			"both are executed on the real code and every input of H must give the same output/value/outcome class (and, cache-disabled batch, the same tick count) in H'. " +
+			"deadline at a PRNG-chosen virtual tick, allocation refusal through the memory seam, writer error, break/continue outside loops, a panic inside eval() or on the right of a pipe) inserted at PRNG-chosen positions and multiplicities; " +
+			"a cancelled text is sometimes re-submitted uncancelled later in both; both are executed on the real code and every input of H must give the same output/value/outcome class (and, cache-disabled batch, the same tick count) in H'. " +
 			"distinct = distinct sequence of (event tag, fault kind, outcome class); non-trivial = at least one inserted input really failed (fault fired / error / panic) before a compared input.",
 		Real:    commonReal,
 		Stubbed: commonStubbed,
@@ -41,7 +41,7 @@ func (c10) Budget(tier string) core.Budget {
 	if tier == "thorough" {
 		return core.Budget{Runs: 2000000, WallCap: 20 * time.Minute}
 	}
-	return core.Budget{Runs: 6000, WallCap: 45 * time.Second}
+	return core.Budget{Runs: 9000, WallCap: 60 * time.Second}
 }
 
 type failTpl struct {
